@@ -9,6 +9,7 @@ import Midgard.Generated.RinexNavCols
 import Midgard.Spec.RinexNav
 import Midgard.Proofs.FixedCol
 import Midgard.Proofs.Decimal
+import Midgard.Proofs.RinexNavFile
 
 namespace Midgard.Props.C12
 open Midgard.RinexNav Midgard.Generated.RinexNav Midgard.FixedCol Midgard.Text Midgard.Decimal
@@ -455,6 +456,278 @@ theorem columns_equal_length (T : Tables) (hT : nodupL (recordNames T) = true)
         simp only [recordNames, List.count_append]
         omega
 
+
+/-! ## 6. Whole files: record splitting and accumulation (RINEX 3) -/
+
+section File
+open Midgard.Spec.RinexNavFile
+
+/-- **file_records_v3**: for every abstract RINEX 3 navigation file `f` — header lines, then any sequence of
+navigation records of G / E / C / J / I (eight lines each, values in any of the `D d E e` spellings, blank
+fields, lines cut after the last value, spare columns on the last line) and GLONASS / SBAS records with
+*any* number of orbit lines in between, at the start or at the end — whose values fit their columns
+(`f.wf`), reading the rendered text (`accumV3`: line splitting, header / data split, record splitting,
+`addRecord` per record) delivers the header's satellite-system letter, and columns to which every supported
+record, in file order, has appended exactly its 31 values (`kvOf`: system, satellite, three clock values,
+26 orbit values under the standard's slot names, each the number printed in its column), together with
+the record epochs; the skipped records contribute nothing. -/
+theorem file_records_v3 (f : NavFile) (hwf : f.wf = true) :
+    accumV3 v3 (render3 f) = some ([f.satSys], expectedState f.items) := by
+  have hitems : ∀ it ∈ f.items, it.wf = true := by
+    simp only [NavFile.wf, Bool.and_eq_true, List.all_eq_true] at hwf
+    exact hwf.2
+  have hnonl : ∀ l ∈ fileLines3 f, Midgard.Spec.Sp3File.NoNl l := by
+    intro l hl
+    simp only [fileLines3, List.mem_append, List.mem_flatten, List.mem_map] at hl
+    rcases hl with hl | ⟨g, ⟨it, hit, rfl⟩, hl⟩
+    · exact nonl_headerLines f hwf l hl
+    · exact nonl_itemLines3 it (hitems it hit) l hl
+  obtain ⟨hnoend, hend⟩ := header_isEnd f hwf
+  unfold accumV3 render3
+  rw [textLines_joinLines _ hnonl]
+  have hsplit : splitHeader (fileLines3 f) =
+      (((firstPre f ++ versionLabel) :: f.hlines.map hline) ++ [blanks 60 ++ endLabel], (f.items.map itemLines3).flatten) := by
+    unfold fileLines3
+    rw [headerLines_eq, List.append_assoc]
+    exact splitHeader_eq _ _ _ hnoend hend
+  rw [hsplit]
+  simp only
+  rw [splitV3_groups _ (by
+    intro g hg
+    simp only [List.mem_map] at hg
+    obtain ⟨it, hit, rfl⟩ := hg
+    exact item_group it (hitems it hit))]
+  rw [supported_fold f.items hitems]
+  simp only [Option.bind_eq_bind, Option.bind_some, Option.pure_def, List.cons_append, satSys_header f hwf]
+  rfl
+
+/-- the whole parser on a rendered file: the post-processing applied to exactly the per-record columns -/
+theorem parse_v3_of_records (f : NavFile) (hwf : f.wf = true) :
+    parseV3 v3 (render3 f) = postV3 v3 [f.satSys] (expectedState f.items) := by
+  unfold parseV3
+  rw [file_records_v3 f hwf]
+  rfl
+
+
+/-- **file_records_v2**: the same for RINEX 2 GPS navigation files (both 2.x parsers' tables): header, then
+GPS records of eight lines each (`I2,1X,I2.2,…,F5.1,3D19.12` / `3X,4D19.12`, two-digit years 80–99 ↦ 19yy,
+00–79 ↦ 20yy) — reading the rendered text appends, record after record in file order, exactly the
+record's 31 values, with the four-digit year in the record epoch -/
+theorem file_records_v2 (T : Tables) (hT : T = v2 ∨ T = v212) (f : NavFile) (hwf : f.wf2 = true) :
+    accumV2 T "G" (render2 f) = some (expectedState f.items) := by
+  have hlines : T.lines = ⟨1, epochLayout2⟩ :: orbitLines 3 := by
+    rcases hT with rfl | rfl
+    · exact v2_lines.1
+    · exact v2_lines.2
+  have hwf1 : f.wf = true := by
+    simp only [NavFile.wf2, Bool.and_eq_true] at hwf
+    exact hwf.1
+  have hsup := wf2_supported f hwf
+  have hnonl : ∀ l ∈ fileLines2 f, Midgard.Spec.Sp3File.NoNl l := by
+    intro l hl
+    simp only [fileLines2, List.mem_append, List.mem_flatten, List.mem_map] at hl
+    rcases hl with hl | ⟨g, ⟨r, hr, rfl⟩, hl⟩
+    · exact nonl_headerLines2 f hwf1 l hl
+    · exact nonl_navLines2 r (hsup r hr).1 l hl
+  obtain ⟨hnoend, hend⟩ := header2_isEnd f hwf1
+  unfold accumV2 render2
+  rw [textLines_joinLines _ hnonl]
+  have hsplit : splitHeader (fileLines2 f) =
+      (((firstPre2 f ++ versionLabel) :: f.hlines.map hline) ++ [blanks 60 ++ endLabel],
+        ((supported f.items).map navLines2).flatten) := by
+    unfold fileLines2
+    rw [headerLines2_eq, List.append_assoc]
+    exact splitHeader_eq _ _ _ hnoend hend
+  rw [hsplit]
+  have h8 : ∀ g ∈ (supported f.items).map navLines2, g.length = 8 := by
+    intro g hg
+    simp only [List.mem_map] at hg
+    obtain ⟨r, _, rfl⟩ := hg
+    rfl
+  simp only
+  rw [splitV2_groups _ h8 _ (length_flatten_ge _ h8)]
+  have hG : ("G" : String).toList = ['G'] := by decide
+  rw [hG, nav_fold2 T hlines (supported f.items) hsup]
+  rfl
+
+def navOnly (items : List Item) : List Item := (supported items).map Item.nav
+
+theorem supported_navOnly (items : List Item) : supported (navOnly items) = supported items := by
+  unfold navOnly
+  induction supported items with
+  | nil => rfl
+  | cons r rs ih => simp [supported, ih]
+
+theorem navOnly_wf (f : NavFile) (hwf : f.wf = true) : ({ f with items := navOnly f.items } : NavFile).wf = true := by
+  simp only [NavFile.wf, Bool.and_eq_true, List.all_eq_true] at hwf ⊢
+  refine ⟨hwf.1, ?_⟩
+  intro it hit
+  simp only [navOnly, List.mem_map] at hit
+  obtain ⟨r, hr, rfl⟩ := hit
+  have : ∀ (items : List Item), (∀ x ∈ items, x.wf = true) → ∀ r ∈ supported items, (Item.nav r).wf = true := by
+    intro items
+    induction items with
+    | nil => intro _ r hr; simp [supported] at hr
+    | cons x xs ih =>
+      intro hx r hr
+      cases x with
+      | nav r' =>
+        simp only [supported, List.mem_cons] at hr
+        rcases hr with rfl | hr
+        · exact hx _ (by simp)
+        · exact ih (fun y hy => hx y (by simp [hy])) r hr
+      | skip s' =>
+        simp only [supported] at hr
+        exact ih (fun y hy => hx y (by simp [hy])) r hr
+  exact this f.items hwf.2 r hr
+
+/-- **skipped records are invisible (file level)**: deleting every GLONASS / SBAS record from a well-formed
+file — wherever it stands and however many lines it has — does not change what the reader returns; in
+particular the record that follows a skipped one is read from its own first line -/
+theorem skipped_invisible (f : NavFile) (hwf : f.wf = true) :
+    accumV3 v3 (render3 f) = accumV3 v3 (render3 { f with items := navOnly f.items }) := by
+  rw [file_records_v3 f hwf, file_records_v3 _ (navOnly_wf f hwf)]
+  simp [expectedState, expectedData, supported_navOnly]
+
+/-! ### the columns of `expectedData`, by name -/
+
+theorem col_append (d : Cols) (k : String) (v : Cell) (k' : String) :
+    col (append d k v) k' = if k' = k then some ((col d k').getD [] ++ [v]) else col d k' := by
+  induction d with
+  | nil =>
+    by_cases h : k = k'
+    · subst h; simp [append, col]
+    · have h' : ¬ k' = k := fun e => h e.symm
+      simp [append, col, h, h']
+  | cons p rest ih =>
+    obtain ⟨kk, vs⟩ := p
+    by_cases hk : kk = k
+    · subst hk
+      by_cases h : kk = k'
+      · subst h; simp [append, col]
+      · have h' : ¬ k' = kk := fun e => h e.symm
+        simp [append, col, h, h']
+    · by_cases h : kk = k'
+      · subst h
+        simp [append, col, hk]
+      · simp only [append, hk, if_false, col, h]
+        exact ih
+
+/-- the value a record contributes to column `k` -/
+def valOf (r : NavRec) (k : String) : Option Cell := ((kvOf r).find? (·.1 = k)).map (·.2)
+
+theorem kvOf_keys (r : NavRec) : (kvOf r).map (·.1) = recordNames v3 := by
+  rw [kvOf_eq]
+  simp [orbitKv, recordNames, keysOfIdx, clockNames]
+  decide +kernel
+
+theorem col_pushRow (kv : List (String × Cell)) (hnd : nodupL (kv.map (·.1)) = true) (k : String) : ∀ (d : Cols),
+    col (pushRow d kv) k = match (kv.find? (·.1 = k)).map (·.2) with
+      | some v => some ((col d k).getD [] ++ [v])
+      | Option.none => col d k := by
+  induction kv with
+  | nil => intro d; rfl
+  | cons x kv ih =>
+    intro d
+    simp only [List.map_cons, nodupL, Bool.and_eq_true, Bool.not_eq_eq_eq_not, Bool.not_true] at hnd
+    have hx : x.1 ∉ kv.map (·.1) := by simpa using hnd.1
+    show col (pushRow (append d x.1 x.2) kv) k = _
+    rw [ih hnd.2, col_append]
+    by_cases hk : x.1 = k
+    · subst hk
+      have hnone : (kv.find? (fun y => decide (y.1 = x.1))) = Option.none := by
+        rw [List.find?_eq_none]
+        intro y hy
+        simp only [decide_eq_true_eq]
+        intro e
+        exact hx (by rw [← e]; exact List.mem_map_of_mem hy)
+      simp [hnone]
+    · have hk' : ¬ k = x.1 := fun e => hk e.symm
+      simp [hk, hk']
+
+/-- **one entry per supported record, in file order, in every column**: column `k` of the columns read
+from a file holds, for each supported record in file order, the value that record prints for `k` -/
+theorem expectedData_col (items : List Item) (k : String) (hk : k ∈ recordNames v3) :
+    col (expectedData items) k = if supported items = [] then Option.none
+      else some ((supported items).filterMap fun r => valOf r k) := by
+  unfold expectedData
+  have key : ∀ (rs : List NavRec) (d : Cols),
+      col (rs.foldl (fun d r => pushRow d (kvOf r)) d) k =
+        if rs = [] then col d k else some ((col d k).getD [] ++ rs.filterMap fun r => valOf r k) := by
+    intro rs
+    induction rs with
+    | nil => intro d; simp
+    | cons r rs ih =>
+      intro d
+      have hnd : nodupL ((kvOf r).map (·.1)) = true := by rw [kvOf_keys]; exact record_names_distinct.1
+      have hmem : k ∈ (kvOf r).map (·.1) := by rw [kvOf_keys]; exact hk
+      obtain ⟨v, hv⟩ : ∃ v, valOf r k = some v := by
+        simp only [List.mem_map] at hmem
+        obtain ⟨x, hx, rfl⟩ := hmem
+        unfold valOf
+        cases hf : (kvOf r).find? (fun y => decide (y.1 = x.1)) with
+        | none =>
+          rw [List.find?_eq_none] at hf
+          exact absurd (decide_eq_true (rfl : x.1 = x.1)) (hf x hx)
+        | some y => exact ⟨y.2, rfl⟩
+      have hstep := col_pushRow (kvOf r) hnd k d
+      unfold valOf at hv
+      rw [hv] at hstep
+      simp only [List.foldl_cons, ih, List.filterMap_cons]
+      have hv' : valOf r k = some v := hv
+      rw [hv', hstep]
+      by_cases hrs : rs = []
+      · subst hrs; simp
+      · simp [hrs]
+  rw [key]
+  simp [col]
+
+
+/-! ### the hypotheses are satisfiable -/
+
+def demoRow (k : Nat) : Row4 :=
+  ⟨.sci 'D' true false (1000000000000 + k) 0, .sci 'E' false true 250000000000 1, .blank, .sci 'e' true false 0 0, k % 2 == 0⟩
+
+def demoRec (sys : Char) (prn : Nat) : NavRec :=
+  ⟨sys, prn, prn % 2 == 0, 2021, 3, 10, 12, 0, 0, .sci 'D' true true 1234567890123 (-4), .blank, .sci 'd' true false 0 0,
+   demoRow 1, demoRow 2, demoRow 3, demoRow 4, demoRow 5, demoRow 6,
+   ⟨.sci 'D' true false 3024000000000 5, .sci 'D' true false 4000000000000 0, [.blank], true⟩⟩
+
+def demoSkip (sys : Char) (n : Nat) : SkipRec :=
+  ⟨sys, 7, 2021, 3, 10, 11, 45, 0, .sci 'D' true false 1000000000000 (-5), .sci 'D' true false 0 0, .sci 'D' true false 5000000000000 4,
+   (List.range n).map fun k => ([Num19.sci 'D' true (k % 2 == 1) 7100000000000 3, .blank, .sci 'E' false false 5 (-2)], k % 2 == 0)⟩
+
+/-- a mixed RINEX 3 file: GLONASS record (3 orbit lines) first, GPS, SBAS (1 line), BeiDou with the same
+printed epoch as the GPS record, Galileo, GLONASS (4 lines) last -/
+def demoNav : NavFile :=
+  { version := "     3.04".toList, ftype := "N: GNSS NAV DATA".toList, satSys := 'M', sysText := ": MIXED".toList,
+    hlines := [⟨"verif".toList, "PGM / RUN BY / DATE".toList⟩, ⟨"    18".toList, "LEAP SECONDS".toList⟩],
+    items := [.skip (demoSkip 'R' 3), .nav (demoRec 'G' 5), .skip (demoSkip 'S' 1), .nav (demoRec 'C' 12),
+              .nav (demoRec 'E' 1), .skip (demoSkip 'R' 4)] }
+
+example : demoNav.wf = true := by decide +kernel
+
+example : (accumV3 v3 (render3 demoNav)).map (fun x => (x.1, x.2.epochs.map (·.sat), col x.2.data "crs", col x.2.data "delta_n")) =
+    some (['M'], ["G05".toList, "C12".toList, "E01".toList], some [.num (-2.5), .num (-2.5), .num (-2.5)],
+      some [.num 0, .num 0, .num 0]) := by
+  decide +kernel
+
+def demoRec99 : NavRec := { demoRec 'G' 5 with year := 1999 }
+
+/-- a RINEX 2 GPS file with a 1999 and a 2021 record -/
+def demoNav2 : NavFile :=
+  { version := "     2.11".toList, ftype := "N: GPS NAV DATA".toList, satSys := 'x', sysText := [],
+    hlines := [⟨"verif".toList, "PGM / RUN BY / DATE".toList⟩],
+    items := [Item.nav demoRec99, Item.nav (demoRec 'G' 31)] }
+
+example : demoNav2.wf2 = true := by decide +kernel
+
+example : (accumV2 v2 "G" (render2 demoNav2)).map (fun st => st.epochs.map (fun e => (e.sat, e.year))) =
+    some [("G05".toList, 1999), ("G31".toList, 2021)] := by
+  decide +kernel
+
+end File
+
 end Midgard.Props.C12
 
 #print axioms Midgard.Props.C12.layouts_sorted
@@ -484,3 +757,13 @@ end Midgard.Props.C12
 #print axioms Midgard.Props.C12.mapM_names
 #print axioms Midgard.Props.C12.head_clock_names
 #print axioms Midgard.Props.C12.columns_equal_length
+#print axioms Midgard.Props.C12.file_records_v3
+#print axioms Midgard.Props.C12.parse_v3_of_records
+#print axioms Midgard.Props.C12.file_records_v2
+#print axioms Midgard.Props.C12.supported_navOnly
+#print axioms Midgard.Props.C12.navOnly_wf
+#print axioms Midgard.Props.C12.skipped_invisible
+#print axioms Midgard.Props.C12.col_append
+#print axioms Midgard.Props.C12.kvOf_keys
+#print axioms Midgard.Props.C12.col_pushRow
+#print axioms Midgard.Props.C12.expectedData_col
